@@ -26,7 +26,8 @@ ASSUMPTIONS = [
 
 # sides with every small prime factor (13 and 17 are not "FFT-friendly" lengths: a padded or resampled transform shows there)
 SHAPES = [(4, 4, 4), (5, 5, 5), (6, 6, 6), (7, 7, 7), (5, 6, 7), (8, 6, 4), (13, 13, 13), (9, 11, 13), (6, 17, 10)]
-PAIRS = ["same", "ab", "ba", "a3b", "2ab", "neg", "bandlimited", "emptyshell", "int16-float32", "float32-int16", "bool-float64", "uint8-uint8", "float64-float32"]  # the last five: inputs of different / non-float dtypes
+PAIRS = ["same", "ab", "ba", "a3b", "2ab", "neg", "bandlimited", "emptyshell", "int16-float32", "float32-int16", "bool-float64", "uint8-uint8", "float64-float32",  # the last five: inputs of different / non-float dtypes
+         "counts+offset", "huge", "tiny"]  # magnitudes: detector counts on a pedestal of 20000, values of 3e8, values of 1e-9 (float32 inputs)
 
 
 def _dfreqs(shape):
@@ -116,6 +117,12 @@ def _images(pair, shape, seed):
         if pair == "uint8-uint8":
             return np.clip(np.round(a * 40 + 120), 0, 255).astype(np.uint8), np.clip(np.round(b * 40 + 120), 0, 255).astype(np.uint8)
         return a.astype(np.float64), b
+    if pair == "counts+offset":
+        return (a * 50 + 20000).astype(np.float32), (b * 50 + 20000).astype(np.float32)
+    if pair == "huge":
+        return (a * 3e8).astype(np.float32), (b * 3e8).astype(np.float32)
+    if pair == "tiny":
+        return (a * 1e-9).astype(np.float32), (b * 2e-9).astype(np.float32)
     if pair == "bandlimited":
         f = np.fft.fftn(a)
         fr = np.meshgrid(*[np.fft.fftfreq(n) for n in shape], indexing="ij")
@@ -185,7 +192,8 @@ def run_case(case):
         _, v2 = fourier_shell_correlation(b, a, dfreq=dfreq)
         if not np.allclose(vals[defined], np.asarray(v2, dtype=np.float64)[defined], atol=2e-5, equal_nan=True):
             viol.append((sig("symmetry"), f"FSC(a,b) != FSC(b,a) for pair {pair}, shape {shape}"))
-        _, v3 = fourier_shell_correlation((2.5 * a).astype(np.float32), (0.5 * b).astype(np.float32), dfreq=dfreq)
+        # powers of two: the rescaled float32 images are exactly the rescaled images (no re-quantisation of the inputs)
+        _, v3 = fourier_shell_correlation((4.0 * a).astype(np.float32), (0.5 * b).astype(np.float32), dfreq=dfreq)
         if not np.allclose(vals[defined], np.asarray(v3, dtype=np.float64)[defined], atol=5e-5, equal_nan=True):
             viol.append((sig("scale-invariance"), f"pair {pair}, shape {shape}"))
         if pair in ("same", "emptyshell"):
